@@ -4,6 +4,7 @@ package c06
 import (
 	"bytes"
 	"fmt"
+	"net"
 	"net/netip"
 	"strings"
 	"testing"
@@ -35,6 +36,11 @@ type routeCase struct {
 	// Behaviour of the addressed endpoint: 0 answers at once, 1 answers after 70% of the timeout, 2 stays silent
 	// (a slow or silent controller must still see exactly one request)
 	Behaviour int `json:"behaviour,omitempty"`
+	// hook layer: further calls on the SAME client after the first one (routing must not drift with the call history)
+	More []api.Case `json:"more,omitempty"`
+	// socket layer: the fixed bind port is held by another socket while the call is made - nothing may leave from any
+	// other port
+	BindBusy bool `json:"bind_busy,omitempty"`
 }
 
 func kinds(c routeCase) (map[string]bool, bool) {
@@ -92,6 +98,27 @@ func runHook(c routeCase) *rp.Fail {
 	}
 	if want := spec.Request(c.Call.Call); !bytes.Equal(sends[0].Request, want) {
 		return rp.Failf("hook/request-bytes", "%s sent %x, protocol encoding is %x", c.Call.Call.Op, sends[0].Request, want)
+	}
+	for i, cs := range c.More {
+		d.Reset()
+		if r := validReply(cs.Call); r != nil {
+			d.Reset(r)
+		}
+		discovery := cs.Call.Op == "GetDevices"
+		if discovery {
+			u.GetDevices()
+		} else if res := api.Invoke(u, cs); res.Panic != nil {
+			return rp.Failf("hook/panic", "%s panicked: %v", cs.Call.Op, res.Panic)
+		}
+		wantMethod, wantAddr := c.Cfg.Route(cs.Call.Serial, discovery)
+		sends := d.Sends()
+		if len(sends) != 1 {
+			return rp.Failf("hook/send-count", "call %d after %s: %s made %d transport calls", i+2, c.Call.Call.Op, cs.Call.Op, len(sends))
+		}
+		if sends[0].Method != wantMethod || sends[0].Addr != wantAddr {
+			return rp.Failf("hook/route-after-earlier-calls", "call %d on the same client (after %s): %s for controller %d used %s to %s; the configuration prescribes %s to %s",
+				i+2, c.Call.Call.Op, cs.Call.Op, cs.Call.Serial, sends[0].Method, sends[0].Addr, wantMethod, wantAddr)
+		}
 	}
 	return nil
 }
@@ -208,6 +235,15 @@ func runSocket(c routeCase) (fail *rp.Fail, skipped bool) {
 		}
 		cfg.BindPort = port
 	}
+	if c.BindBusy && cfg.BindPort != 0 {
+		hu, err1 := net.ListenUDP("udp4", &net.UDPAddr{IP: net.IP(cfg.BindIP[:]), Port: int(cfg.BindPort)})
+		ht, err2 := net.ListenTCP("tcp4", &net.TCPAddr{IP: net.IP(cfg.BindIP[:]), Port: int(cfg.BindPort)})
+		if err1 != nil || err2 != nil {
+			return nil, true
+		}
+		defer hu.Close()
+		defer ht.Close()
+	}
 	u := hook.Real(cfg)
 	cs := c.Call
 	res, discovery := invoke(c, func(cs api.Case) api.Result { return api.Invoke(u, cs) }, func() error { _, err := u.GetDevices(); return err })
@@ -229,6 +265,25 @@ func runSocket(c routeCase) (fail *rp.Fail, skipped bool) {
 		wantTCP = wantMethod == "SendTCP"
 	}
 	wantReq := spec.Request(c.Call.Call)
+	if c.BindBusy {
+		// the configured bind port cannot be used: whatever the call returns, no endpoint may have received anything
+		// (a request can only leave from the configured bind address)
+		for _, name := range names {
+			p := endpoints[name]
+			n := 0
+			if p.udp != nil {
+				n += len(p.udp.Log())
+			}
+			if p.tcp != nil {
+				n += p.tcp.Connections()
+			}
+			if n != 0 {
+				return rp.Failf("socket/sent-from-another-port", "%s (route %s): the fixed bind port %d was held by another socket, yet endpoint %s received %d request(s) - they cannot have come from the configured bind address",
+					c.Call.Call.Op, wantMethod, cfg.BindPort, name, n), false
+			}
+		}
+		return nil, false
+	}
 	for _, name := range names {
 		p := endpoints[name]
 		var ulog, tlog []farm.Received
@@ -287,6 +342,12 @@ func check(c routeCase) *rp.Fail {
 	ev.Case(class, nt, fmt.Sprintf("%+v", c))
 	if c.Cfg.BindPort != 0 {
 		ev.Class(c.Layer+"/fixed-bind-port", 1)
+	}
+	if c.BindBusy {
+		ev.Class(c.Layer+"/fixed-bind-port-held-by-another-socket", 1)
+	}
+	if len(c.More) > 0 {
+		ev.Class(c.Layer+"/further-calls-on-the-same-client", int64(len(c.More)))
 	}
 	ev.Class(c.Layer+"/controller-"+[]string{"answers-at-once", "answers-late", "silent"}[c.Behaviour], 1)
 	if ev.WantSample(class) {
@@ -365,6 +426,26 @@ func genCase(layer string) func(t *rapid.T) routeCase {
 		c.Call = gen.Call(t, op)
 		if op != "GetDevices" && len(serials) > 0 && rapid.IntRange(0, 4).Draw(t, "configured") != 0 {
 			c.Call.Call.Serial = serials[rapid.IntRange(0, len(serials)-1).Draw(t, "which")]
+		}
+		if layer == "hook" {
+			n := rapid.IntRange(0, 3).Draw(t, "more")
+			for i := 0; i < n; i++ {
+				cs := gen.Call(t, gen.Op(t, true))
+				if cs.Call.Op != "GetDevices" && len(serials) > 0 && rapid.IntRange(0, 4).Draw(t, "more.configured") != 0 {
+					cs.Call.Serial = serials[rapid.IntRange(0, len(serials)-1).Draw(t, "more.which")]
+				}
+				if i == 0 && op != "GetDevices" && rapid.Bool().Draw(t, "more.same") {
+					cs.Call.Serial = c.Call.Call.Serial // the same controller again
+					if cs.Call.Op == "GetDevices" {
+						cs = gen.Call(t, "GetTime")
+						cs.Call.Serial = c.Call.Call.Serial
+					}
+				}
+				c.More = append(c.More, cs)
+			}
+		}
+		if layer == "socket" && c.Cfg.BindPort != 0 && c.Cfg.BindIP != [4]byte{} {
+			c.BindBusy = rapid.IntRange(0, 3).Draw(t, "bind.busy") == 0
 		}
 		if layer == "socket" && op == "SetTime" {
 			c.Call.V.TimeLoc = "" // keep the socket-layer requests independent of zone data
